@@ -70,7 +70,8 @@ META = {
         "emptied, and is advanced to len(buffer) only after a failed search and before anything is appended; a decision on the "
         "content of the read buffer (startswith / slice, index or length comparison, in the reader or in load/_load_v*) is taken "
         "only at eof or after a loop that reads until enough bytes or eof - the find-a-separator-else-read-more protocol and "
-        "emptiness tests are exempt; a zlib.decompressobj() has its `eof` tested (raising on an unfinished stream) before "
+        "emptiness tests are exempt; the position at which a buffer is cut was found in that buffer (a position found in the "
+        "newly read chunk or any other byte string is reported); a zlib.decompressobj() has its `eof` tested (raising on an unfinished stream) before "
         "the method ends normally; a method that reads does not call itself (one stack frame per read() is a RecursionError "
         "for long lines from streams that return few bytes per read). "
         "R5: header constants and their dispatch, [11:] offsets of project name/version (through helpers), how a v1 line becomes "
@@ -80,7 +81,7 @@ META = {
         "of their path conditions, with conditional expressions, `in (..)` tests and literal lookup tables lowered to branches, "
         "so a branch taken on a translated instead of the raw type field is seen; a first-wins guard in v1 "
         "is reported), the substring/separator, type-equality and location-suffix constants of the v2 loader, the entry-line "
-        "boundary set (str.splitlines) for v1 and v2 entries and for the v1 project/version lines (Sphinx takes them from the same "
+        "boundary set (str.splitlines; bytes.splitlines knows LF/CR/CRLF only, told apart by how the receiver was produced) for v1 and v2 entries and for the v1 project/version lines (Sphinx takes them from the same "
         "splitlines list), the item type to_sphinx stores (the constructor and keywords Sphinx's loader uses, e.g. "
         "_InventoryItem(project_name, project_version, uri, display_name) for Sphinx >= 8.2), the base url joined into the "
         "location by to_sphinx with the function Sphinx's loader uses (posixpath.join), and the '-' sentinel of to_sphinx / from_sphinx / Sphinx's v1 loader "
@@ -2543,13 +2544,20 @@ def _judge_buffer(rep: Report, M: ReaderModel, m: FunctionInfo, b: str) -> None:
             pos = ups[0].id
             seps = set()
             defs = []
+            foreign = None
             for d, v in _name_defs(list(inf), pos):
                 if v is None:
                     raise Unsupported(f"{m.fq}: `{pos}` is modified in an unknown way")
+                if isinstance(v, ast.Call) and isinstance(v.func, ast.Attribute) and v.func.attr in ("find", "rfind", "index") and not _is_b(v.func.value, b) and v.args and _cbytes(v.args[0]) is not None:
+                    foreign = (d, v)  # a position in some other byte string
+                    continue
                 if not (isinstance(v, ast.Call) and isinstance(v.func, ast.Attribute) and v.func.attr in ("find", "rfind") and _is_b(v.func.value, b) and len(v.args) in (1, 2) and _cbytes(v.args[0]) is not None):
                     raise Unsupported(f"{m.fq}: `{pos}` is not only assigned from {b}.find(<bytes>)")
                 seps.add(_cbytes(v.args[0]))
                 defs.append(d)
+            if foreign is not None:
+                rep.violation(rid, k, site, f"`{pos}` is (also) computed as `{short(foreign[1], 50)}`, a position in `{short(foreign[1].func.value, 30)}`, but `{short(st, 50)}` uses it as a position in {b}: when {b} already holds bytes carried over from an earlier read the line is cut at the wrong place - the result depends on how the stream is split into reads")
+                continue
             if len(seps) != 1:
                 raise Unsupported(f"{m.fq}: `{pos}` has no single separator")
             sep = seps.pop()
@@ -2656,6 +2664,8 @@ def _bytes_provenance(e, fi: FunctionInfo, M: "ReaderModel", gens: set[str], at:
             for d, v in _name_defs([x for x in cfg.nodes if isinstance(x, ast.stmt)], pos):
                 if isinstance(v, ast.Call) and isinstance(v.func, ast.Attribute) and v.func.attr in ("find", "rfind") and unparse(v.func.value) == b and len(v.args) in (1, 2) and _cbytes(v.args[0]) is not None:
                     seps.append(_cbytes(v.args[0]))
+                elif isinstance(v, ast.Call) and isinstance(v.func, ast.Attribute) and v.func.attr in ("find", "rfind", "index") and v.args and _cbytes(v.args[0]) is not None:
+                    return "chunk", f"`{pos}` is a position in `{short(v.func.value, 30)}`, not in {b}"
                 else:
                     raise Unsupported(f"{fi.fq}: `{pos}` is not only assigned from {b}.find(<bytes>)")
             if seps and all(s and max(s) < 0x80 for s in seps):
@@ -2694,6 +2704,9 @@ def _bytes_provenance(e, fi: FunctionInfo, M: "ReaderModel", gens: set[str], at:
                     it = it.args[0]
                 if isinstance(it, ast.Call) and isinstance(it.func, ast.Attribute) and it.func.attr in gens:
                     res.append(("chunk", f"`{e.id}` is one item of {it.func.attr}(): an arbitrary piece of the decompressed stream"))
+                elif isinstance(it, ast.Call) and isinstance(it.func, ast.Attribute) and it.func.attr in ("splitlines", "split") and (it.func.attr == "splitlines" or (it.args and _cbytes(it.args[0]) and max(_cbytes(it.args[0])) < 0x80)):
+                    v_, why_ = _bytes_provenance(it.func.value, fi, M, gens, at, depth + 1)
+                    res.append((v_, f"a line of {why_}" if v_ == "ok" else why_))  # cut at ASCII bytes: never inside a character
                 else:
                     raise Unsupported(f"{fi.fq}: `{e.id}` iterates over `{short(src, 40)}`")
         bad = [r for r in res if r[0] == "chunk"]
@@ -3396,6 +3409,65 @@ def _v2_consts(corpus: Corpus, fi: FunctionInfo, roles: dict, depth: int = 0, ou
     return out
 
 
+BYTES_SPLITLINES_BOUNDARIES = frozenset(["\n", "\r", "\r\n"])  # bytes.splitlines(): ASCII line boundaries only
+
+
+def _text_type(fi: FunctionInfo, e, depth: int = 0) -> str | None:
+    """'str' / 'bytes' for an expression, from how it was produced (decode(), bytes literal/join, a method
+    annotated -> str / -> bytes, a local bound once)."""
+    if depth > 4:
+        return None
+    if isinstance(e, ast.Constant):
+        return "bytes" if isinstance(e.value, bytes) else "str" if isinstance(e.value, str) else None
+    if isinstance(e, ast.JoinedStr):
+        return "str"
+    if isinstance(e, ast.Call) and isinstance(e.func, ast.Attribute):
+        a = e.func.attr
+        if a == "decode":
+            return "str"
+        if a == "encode":
+            return "bytes"
+        if a in ("join", "strip", "rstrip", "lstrip", "replace", "lower", "upper"):
+            return _text_type(fi, e.func.value, depth + 1)
+        if a in ("decompress", "flush", "read"):
+            return "bytes"
+        if isinstance(e.func.value, ast.Name) and e.func.value.id == "self" and fi.cls is not None and a in fi.cls.methods:
+            r = _ann_text(fi.cls.methods[a].node.returns)
+            return "str" if r == "str" else "bytes" if r == "bytes" else None
+    if isinstance(e, ast.BinOp) and isinstance(e.op, ast.Add):
+        return _text_type(fi, e.left, depth + 1) or _text_type(fi, e.right, depth + 1)
+    if isinstance(e, ast.Subscript):
+        return _text_type(fi, e.value, depth + 1)
+    if isinstance(e, ast.Name):
+        for a in fi.node.args.posonlyargs + fi.node.args.args:
+            if a.arg == e.id:
+                t = _ann_text(a.annotation)
+                return t if t in ("str", "bytes") else None
+        defs = [d.value for d in fi.local_nodes() if isinstance(d, (ast.Assign, ast.AnnAssign)) and d.value is not None and any(_is_name(t_, e.id) for t_ in (d.targets if isinstance(d, ast.Assign) else [d.target]))]
+        kinds = {_text_type(fi, d, depth + 1) for d in defs}
+        return kinds.pop() if len(kinds) == 1 else None
+    return None
+
+
+def _splitlines_boundaries(funcs: list[FunctionInfo]) -> set | None:
+    """Boundary set of the ``x.splitlines()`` calls in ``funcs``: str.splitlines or bytes.splitlines (ASCII only)."""
+    kinds = set()
+    for f in funcs:
+        for n in f.local_nodes():
+            if isinstance(n, ast.Call) and isinstance(n.func, ast.Attribute) and n.func.attr == "splitlines" and not n.args and not n.keywords:
+                t = _text_type(f, n.func.value)
+                if t is None:
+                    raise Unsupported(f"{f.fq}: whether `{short(n, 40)}` splits text or bytes was not understood")
+                kinds.add(t)
+    if not kinds:
+        return None
+    if kinds == {"str"}:
+        return set(SPLITLINES_BOUNDARIES)
+    if kinds == {"bytes"}:
+        return set(BYTES_SPLITLINES_BOUNDARIES)
+    raise Unsupported(f"{funcs[0].fq}: text and bytes are both split into lines")
+
+
 def _line_sources(funcs: list[FunctionInfo]) -> set[str]:
     out = set()
     for f in funcs:
@@ -3530,13 +3602,13 @@ def r5_constants(corpus: Corpus, rep: Report, tier: str):
         srcs -= {"readline"}
         meth_attr -= {"readline"}
         if srcs == {"splitlines"}:
-            s_bound = set(SPLITLINES_BOUNDARIES)
+            s_bound = _splitlines_boundaries([A.s_v1, A.s_disp] if role == "v1" else [A.s_v2])
         elif srcs and srcs <= {"readlines", "read_compressed_lines"}:
             s_bound = {"\n"}
         else:
             raise Unsupported(f"{SIB}: how {role} entry lines are produced was not understood ({sorted(srcs)})")
-        if "splitlines" in meth_attr:  # whatever produced the text, it is split again at every str.splitlines() boundary
-            m_bound, where, site = set(SPLITLINES_BOUNDARIES), f"{(A.v1 if role == 'v1' else A.v2).fq}", (A.v1 if role == "v1" else A.v2).site()
+        if "splitlines" in meth_attr:  # whatever produced the text, it is split again at every splitlines() boundary
+            m_bound, where, site = _splitlines_boundaries([A.v1 if role == "v1" else A.v2]), f"{(A.v1 if role == 'v1' else A.v2).fq}", (A.v1 if role == "v1" else A.v2).site()
         elif len(meth_attr) == 1 and next(iter(meth_attr)) in M.ci.methods:
             meth = M.ci.methods[next(iter(meth_attr))]
             # follow readlines -> readline
@@ -3547,10 +3619,11 @@ def r5_constants(corpus: Corpus, rep: Report, tier: str):
                 bs |= {s.decode("latin1") for s in seps.get(fq, set())}
             if uses_splitlines:
                 # lines cut at a subset of the splitlines boundaries and then split again with
-                # str.splitlines() end exactly at the splitlines boundaries
-                if not bs <= set(SPLITLINES_BOUNDARIES):
+                # splitlines() end exactly at the boundaries of that splitlines (str: all, bytes: LF/CR/CRLF)
+                sb = _splitlines_boundaries([meth])
+                if not bs <= sb:
                     raise Unsupported(f"{meth.fq}: separator {sorted(bs)} combined with splitlines()")
-                bs = set(SPLITLINES_BOUNDARIES)
+                bs = sb
             if not bs:
                 raise Unsupported(f"{meth.fq}: line separator not found")
             m_bound, where, site = bs, meth.fq, meth.site()
@@ -3562,7 +3635,8 @@ def r5_constants(corpus: Corpus, rep: Report, tier: str):
             rep.ok(rid, k, site, _show_set(m_bound))
         else:
             extra = sorted(s_bound - m_bound - {"\r\n"})
-            rep.violation(rid, k, site, f"{role} entry lines end at {_show_set(m_bound)} only; Sphinx {ver} splits the decoded text with str.splitlines(), i.e. also at {extra!r}: an entry whose name or display name contains one of these is one entry here and two lines in Sphinx")
+            how = " (bytes.splitlines() knows the ASCII boundaries only)" if m_bound == set(BYTES_SPLITLINES_BOUNDARIES) else ""
+            rep.violation(rid, k, site, f"{role} entry lines end at {_show_set(m_bound)} only{how}; Sphinx {ver} splits the decoded text with str.splitlines(), i.e. also at {extra!r}: an entry whose name or display name contains one of these is one entry here and two lines in Sphinx")
     # (7) v1 header lines are cut like the entry lines (Sphinx takes both from one str.splitlines() list)
     own1, ctx1, ne1, ve1 = _proj_version_exprs(corpus, A.v1)
     s_own, _sctx, sne, sve = _proj_version_exprs(corpus, A.s_v1)
@@ -3875,6 +3949,8 @@ def mutants(corpus: Corpus):
             # class "decode applied to an arbitrary byte chunk"
             add2("c18-decode-per-chunk-then-join", "C18.R4", [(join.value, f'"".join(c.decode() for c in {g})'), (dec, var)], "decode|c")
             add2("c18-decode-and-split-per-chunk", "C18.R4", [(join, f"for chunk in {g}:\n{ind}    yield from chunk.decode().splitlines()"), (ylines, "pass")], "decode|chunk")
+            # class "near-synonym line splitter with a smaller boundary set"
+            add("c18-v2-bytes-splitlines-then-decode", "C18.R5", ylines, f"for line in {var}.splitlines():\n{ind}    yield line.decode()", "v2 entry line boundaries")
             # class "carry-over cut from the wrong operand / at the wrong place"
             per_chunk = (
                 f'pending = b""\n{ind}for chunk in {g}:\n{ind}    data = pending + chunk\n{ind}    pos = data.rfind(b"\\n")\n'
@@ -3964,6 +4040,23 @@ def mutants(corpus: Corpus):
         add("c18-v1-module-spelling-also-renamed", "C18.R5", v1if.test, f'{tvn} in ("mod", "module")', "ITEMTYPE == 'module'")
     else:
         out.append(("c18-v1-anchor-from-translated-type", "v1 `if objtype == \"mod\"` with two/one statements not found"))
+    # class "position found in one byte string used to cut another"
+    if rl is not None and rb is not None:
+        M_ = _reader(corpus)
+        wl_ = find_node(rl, lambda n: isinstance(n, ast.While) and any(isinstance(x, ast.NamedExpr) for x in ast.walk(n.test)))
+        rd_ = find_node(rb, lambda n: isinstance(n, ast.Assign) and isinstance(n.value, ast.Call) and isinstance(n.value.func, ast.Attribute) and n.value.func.attr == "read")
+        if wl_ is not None and rd_ is not None and isinstance(rd_.targets[0], ast.Name):
+            ne_ = [x for x in ast.walk(wl_.test) if isinstance(x, ast.NamedExpr)][0]
+            pv_, fc_ = ne_.target.id, ne_.value
+            sep_ = ast.get_source_segment(src, fc_.args[0])
+            i_ = " " * wl_.col_offset
+            last_rb = rb.node.body[-1]
+            add2("c18-line-end-searched-in-new-chunk-only", "C18.R4", [
+                (last_rb, f"{ast.get_source_segment(src, last_rb)}\n{' ' * last_rb.col_offset}return {rd_.targets[0].id}"),
+                (wl_, f"{pv_} = {M_.B}.find({sep_})\n{i_}while {pv_} == -1 and not {M_.E}:\n{i_}    {pv_} = self.{rb.name}().find({sep_})"),
+            ], "a position in")
+        else:
+            out.append(("c18-line-end-searched-in-new-chunk-only", "readline has no `while (pos := buffer.find(sep)) ...` loop"))
     # --- reverts of the round-10 repairs
     # 24b7429: the decompressor's eof is tested after the final flush
     if rcc is not None:
